@@ -512,3 +512,16 @@ def norm_roundtrip(idx, t, v):
             and not inner[2] and not idx.get(b[1], b[2]).get('subtypes'):
         inner = None
     return ('union', v[1], v[2], inner)
+
+
+def is_complete(v):
+    """False when a union inside the value has no tag available (all tags omitted for the caller)."""
+    if isinstance(v, tuple) and v and v[0] == 'union':
+        return v[2] is not None and is_complete(v[3])
+    if isinstance(v, tuple) and v and v[0] == 'struct':
+        return all(is_complete(x) for x in v[2].values())
+    if isinstance(v, list):
+        return all(is_complete(x) for x in v)
+    if isinstance(v, dict):
+        return all(is_complete(x) for x in v.values())
+    return True
